@@ -32,6 +32,10 @@ type fzProg struct {
 	Sc      Scenario `json:"scenario"`
 	Hostile []int    `json:"hostile_mode"` // per hostile client: 0 logged in, 1 hi only, 2 nothing, 3 root
 	Msgs    []fzMsg  `json:"msgs"`
+	// Prelude: unusual world states set up by the regular population before (and between) the hostile inputs:
+	// 1 a member unsubscribes from group 0, 2 everybody leaves group 0 and it idles out, 3 that member deletes
+	// the account (soft), 4 (hard), 5 the owner re-invites the member, 6 the member comes back on a new connection
+	Prelude []int `json:"prelude,omitempty"`
 }
 
 var fzStrings = []string{"", "x", "N", "JRWPASDO", "XYZ", "basic", "token", "code", "reset", "nosuch", "new", "newabc", "␡", "a b,c", "\"q", "email:a@b.c",
@@ -79,6 +83,12 @@ func genFuzz(rt *rapid.T) fzProg {
 			m.Delay = rapid.IntRange(1, 6).Draw(rt, "delay")
 		}
 		p.Msgs = append(p.Msgs, m)
+	}
+	if rapid.IntRange(0, 2).Draw(rt, "prelude") == 0 {
+		n := rapid.IntRange(1, 5).Draw(rt, "nprelude")
+		for i := 0; i < n; i++ {
+			p.Prelude = append(p.Prelude, rapid.SampledFrom([]int{1, 2, 3, 3, 4, 5, 5, 6}).Draw(rt, "pstep"))
+		}
 	}
 	return p
 }
@@ -264,6 +274,44 @@ func runFuzz(t *testing.T, sched simrt.Schedule, prog fzProg) ([]Violation, RunS
 			w.rt.Run(time.Second, nil)
 		}
 		bystander := w.Clients[0]
+		if len(prog.Prelude) > 0 && len(sc.Groups) > 0 {
+			gs := sc.Groups[0]
+			member := -1
+			for _, m := range gs.Members {
+				if !m.AsChan && m.User != bystander.User.Idx && m.User != sc.Root {
+					member = m.User
+				}
+			}
+			if member >= 0 && gs.Owner != member {
+				mc, oc := w.clientsOf(member)[0], w.clientsOf(gs.Owner)[0]
+				for _, step := range prog.Prelude {
+					switch step {
+					case 1:
+						w.runPhase(map[int][]*Op{mc.Idx: {opLeave("@grp0", true)}})
+					case 2:
+						lv := map[int][]*Op{}
+						for _, c := range w.Clients {
+							if c.Connected && c.LoggedIn {
+								lv[c.Idx] = []*Op{opLeave(c01TopicName(sc, c, 0), false)}
+							}
+						}
+						w.runPhase(lv)
+					case 3, 4:
+						w.runPhase(map[int][]*Op{mc.Idx: {opMsg(&ClientComMessage{Del: &MsgClientDel{What: "user", Hard: step == 4}})}})
+					case 5:
+						w.runPhase(map[int][]*Op{oc.Idx: {opSub("@grp0", "", ""), opSetSub("@grp0", fmt.Sprintf("@usr%d", member), "")}})
+					case 6:
+						if !mc.Connected {
+							w.runPhase(map[int][]*Op{mc.Idx: {opHi(), opLogin(member, "basic"), opSub("me", "", "")}})
+						}
+					}
+					if len(w.rt.Panics) > 0 {
+						return out
+					}
+				}
+				simrt.Probe("c13.prelude")
+			}
+		}
 		hostileOps := map[int][]*Op{}
 		byOps := []*Op{}
 		for i, m := range prog.Msgs {
